@@ -413,6 +413,24 @@ def check_c09(pid, tier, seed, replay=None):
       nt, COMMON_ASSUME, extra_cov=dict(generated_files=len(extra_files), open_model=openmodel, read_model=readmodel, design_model=dict(states=mc['states'], transitions=mc['transitions'])), extra_viol=extra_viol)
 
 # ---------------------------------------------------------------- C10
+def fam_twin(rng, f, name, n, sched):
+    """the same call history on two handles of one file: handle 0 with a callback that delivers what is asked for, handle 1 under the
+       short-read schedule `sched`; every call of handle 1 is marked tw and must answer like the call before it (VFApi_Trace.TwinRule)"""
+    nl = nlinks(f)
+    ls = [f'sr 1 {sched[0]} {sched[1]}', f'open 0 {fid(f)} seek', 'tw', f'open 1 {fid(f)} seek']
+    pt = pcm_targets(rng, f, 60); rt = raw_targets(rng, f, 40) + ['c:0', 'c:0', 'c:-1', 'c:1', 'c:0']
+    def both(op, rest): ls.extend([f'{op} 0 {rest}', 'tw', f'{op} 1 {rest}'])
+    for _ in range(n):
+        k = rng.choice(['ps','psp','rs','rs','ts','tsp','rf','rf','psl','rsl','tell'])
+        if k in ('ps','psp','psl'): both(k, rng.choice(pt))
+        elif k in ('rs','rsl'): both(k, rng.choice(rt))
+        elif k in ('ts','tsp'): both(k, f'{rng.randrange(nl)} {rng.choice([0,1,2,101,256,999,3001])} {rng.randrange(4)}')
+        elif k == 'rf': both('rf', rng.choice(READ_LENS))
+        else: ls.extend(['tell 0', 'tw', 'tell 1'])
+        if rng.random() < 0.7: both('rf', rng.choice(READ_LENS))
+    ls += ['clear 0', 'clear 1']
+    return Scenario(name, [f], ls, 'twin-schedule', budget=90)
+
 def check_c10(pid, tier, seed, replay=None):
     t0 = time.time(); rng = random.Random(seed*7919+10)
     bindir = vlib.build('asan')
@@ -440,12 +458,18 @@ def check_c10(pid, tier, seed, replay=None):
         for init in (1, 27, 58, 4096):
             scs.append(fam_linear(f, mode='stream', name=f'init{init}-{f}', lens=(4096,), extra_pre=[]))
             scs[-1].lines[0] = f'open 0 {fid(f)} stream init={init}'
+    # call histories with seeks, run on two handles that differ in the read schedule only (found missing by a seeded change: a raw seek to the
+    # handle's own byte position threw the buffered bytes away, so what followed depended on how much the callback had delivered)
+    for f in (['B','K','E','X'] if quick else ['B','K','E','X','I','N','D','Y','H','Q','P']):
+        for (m,a) in ([(1,0)] + rng.sample(srs[1:], 2 if quick else 8)):
+            if m == 1 and f in ('H','Q','P'): continue
+            scs.append(fam_twin(rng, f, f'twin-sr{m}_{a}-{f}', 25 if quick else 80, (m,a)))
     with ThreadPoolExecutor(max_workers=2) as ex0:
         fmc = ex0.submit(read_model_check, pid, quick, 'stream')
         res = run_batch(pid, tier, with_pages(scs), bindir)
         mc, extra_viol = fmc.result()
     readmodel = model_fidelity(res, 'VFRead_Trace'); readmodel['design'] = mc
-    rules = READ_RULES | OPEN_RULES | SAFETY_RULES
+    rules = READ_RULES | OPEN_RULES | SAFETY_RULES | SEEK_RULES | {'SameUnderAnyReadSchedule'}
     return finish(pid, tier, seed, 'model_checking', scs, res, rules, t0,
       'scenario = complete decode of one generated stream through vorbisfile in seekable or streaming mode under one short-read schedule of the read callback (1 byte, random, fixed k, page-boundary +-d, inside-page-header +-d) and one schedule of requested lengths; every delivered chunk is located bit-exactly in the packet-level reference decode; non-trivial = audio delivered; distinct = distinct script text',
       nontrivial_default, COMMON_ASSUME + ['third access path (packet-level API) is the reference itself'], extra_cov=dict(read_model=readmodel, design_model=dict(states=mc['states'], transitions=mc['transitions'])), extra_viol=extra_viol)
@@ -569,7 +593,7 @@ def check_c20(pid, tier, seed, replay=None):
     t0 = time.time(); rng = random.Random(seed*7919+20)
     bindir = vlib.build('asan')
     quick = (tier != 'thorough')
-    files = ['B','C','D','I','N','T','R','S','K','V','X'] + ([] if quick else ['A','E','H','J','L','M','P','Q','F','U'])
+    files = ['B','C','D','I','N','T','R','S','K','V','X','ZG','ZH'] + ([] if quick else ['A','E','H','J','L','M','P','Q','F','U'])
     scs = []
     for f in files:
         for mode in ('seek','stream'):
